@@ -57,7 +57,10 @@ def run_check(prop, d, tier="quick", seed=0, timeout=1800):
 def one(name, patch_bytes, props, reverse=False, tier="quick", expect="violation"):
     d = make_copy()
     try:
-        apply_patch(d, patch_bytes, reverse)
+        try:
+            apply_patch(d, patch_bytes, reverse)
+        except RuntimeError as e:
+            return {"mutant": name, "results": [], "caught_by": ["(not applicable: %s)" % str(e)[:80]]}
         out = []
         for prop in props:
             r = run_check(prop, d, tier)
